@@ -45,12 +45,18 @@ func configs(tier string) []*config {
 		return out
 	}
 	if tier == "thorough" {
-		return []*config{
-			mk(4, 1, 1, 3, false),
-			mk(4, 1, 2, 2, false),
-			mk(6, 2, 1, 2, false),
-			mk(6, 3, 1, 2, true),
+		out := []*config{
+			mk(4, 1, 1, 3, false), // tip-following, one reorg, <=3 deviations
+			mk(3, 1, 2, 2, false), // two reorgs, <=2 deviations
+			mk(4, 1, 2, 1, false), // two reorgs on a longer chain, <=1 deviation
+			mk(6, 2, 1, 2, false), // catch-up with 2 fetchers, one reorg, <=2 deviations
+			mk(6, 3, 1, 1, true),  // catch-up with 3 fetchers, new state backend
+			mk(5, 2, 0, 3, false), // catch-up with 2 fetchers, no reorg, <=3 deviations
 		}
+		for _, c := range out {
+			c.variants = append(c.variants, vCorruptDiff)
+		}
+		return out
 	}
 	return []*config{
 		mk(4, 1, 1, 1, false), // tip-following, one reorg, <=1 deviation
